@@ -21,9 +21,9 @@ MAP = {
     "C11_m1": [("C11", "wrap.writef_float.ch2")], "C11_m2": [("C11", "rt.upd.wav.pcm16.ch1.n3.sr44100.wptr0")],
     "C12_m1": [("C12", "meta.cues.wav.pcm16.ch1.n1")], "C12_m2": [("C12", "wrap.write_raw.ch1")],
     "C13_m1": [("C13", "rgrow.count20,chunk.seq")], "C13_m2": [("C13", None)],
-    "C14_m1": [("C14", None)], "C14_m2": [("C14", None)],
-    "C15_m1": [("C15", "sg.pcm_16le.float.FAULT")], "C15_m2": [("C15", None)],
-    "C16_m1": [("C16", None)], "C16_m2": [("C16", None)],
+    "C14_m1": [("C14", "embed_open")], "C14_m2": [("C14", None)],
+    "C15_m1": [("C15", "sg.pcm_16le.float.FAULT")], "C15_m2": [("C15", "alac.close")],
+    "C16_m1": [("C16", None)], "C16_m2": [("C16", "alac.close")],
     "C17_m1": [("C17", "cmd.SFC_GET_CUE,cmd.SFC_SET_CUE")], "C17_m2": [("C17", "calc.SFC_CALC_SIGNAL_MAX.ch1"), ("C18", "calc.SFC_CALC_SIGNAL_MAX.ch1")],
     "C18_m1": [("C18", "peak.float32.float.ch1")], "C18_m2": [("C18", "calc.SFC_CALC_MAX_ALL_CHANNELS.ch2")],
     "C19_m1": [("C19", "fileio.ownership")], "C19_m2": [("C19", None)],
